@@ -70,10 +70,13 @@ theorem getters_covered : Facts.C04.getters =
 functions of `*File` no assignment targets a field or element of an object that is not a
 fresh local (named result, `var`, composite literal, `x := *p`, `make`, `new`). The scan had
 isolated `GetConditionalStyle` writing the default pattern type into the shared `dxf`
-(repaired: it now writes to a copy); any such write appearing in a getter body breaks this
+(repaired: it now writes to a copy). The helper `getCellFormula` behind `GetCellFormula` is
+scanned too: its only write is the flag `f.formulaChecked`, set in the transformed mode that
+`CalcCellValue` uses, never by `GetCellFormula`. Any other such write appearing breaks this
 theorem. (Writes inside callees — `getValueFrom`, `prepareSheetXML`, `mergeOverlapCells` — are
 covered by their own facts and by the twin-run oracle.) -/
-theorem getter_shared_writes_pinned : Facts.C04.getterSharedWrites = [] := by decide
+theorem getter_shared_writes_pinned :
+    Facts.C04.getterSharedWrites = ["getCellFormula:f.formulaChecked"] := by decide
 
 /-! ## All read paths agree -/
 
@@ -224,6 +227,28 @@ theorem finding_getMergeCells_overlapping :
     getCellValueM s ms 5 7 = ['v'] ∧
     getMergeCellsState ms = [mrange 2 7 6 10] ∧
     getCellValueM s (getMergeCellsState ms) 5 7 = [] := by decide
+
+/-- clause "read-only calls are pure", `GetCellFormula` on a dependent cell of a shared formula:
+the stored formula text of the cell after the read is the text before it (the expanded formula
+is returned, not stored). -/
+theorem getCellFormula_keeps_cell (content expanded : Val) :
+    formulaContentAfterRead content expanded = content := by
+  have : getCellFormulaMemoises = false := by decide
+  simp [formulaContentAfterRead, this]
+
+/-- clause "the value of a cell is the same whichever read interface is used", shared strings
+read from a temporary file (workbook opened with a small `UnzipXMLSizeLimit`): every item is
+decoded into a fresh target (fact `sharedStringItemFresh`), so the text `getFromStringItem`
+serves for item `i` is `SI[i].String()`, what the in-memory path serves — for every table,
+rich-text items after plain ones included. -/
+theorem spill_strings_agree (items : List SI) : spillStrings items = items.map SI.str := by
+  have hf : Facts.C04.sharedStringItemFresh = true := by decide
+  have : ∀ (xs : List SI) (tgt : SI), loadStringItems tgt xs = xs.map SI.str := by
+    intro xs
+    induction xs with
+    | nil => intro _; rfl
+    | cons x xs ih => intro tgt; simp [loadStringItems, decodeSI, hf, ih]
+  exact this items _
 
 /-- regression witness of the repaired defect: with the old body (`prepareSheetXML`)
 row 5 of an empty sheet turns visible after reading the style of A10. -/
